@@ -8,7 +8,7 @@ ID = 'C17'
 LEVEL = 'other'
 EXPLANATION = ('Static rules over every Subscription impl: K1 a composite answers is_closed() conjunctively — every part that unsubscribe() '
                'tears down is asked, and true is returned only when all of them answered true; K2 append() on an already unsubscribed '
-               'composite unsubscribes the late addition instead of dropping it; K4 unsubscribe() empties the closed-means-None slot on every path (precondition of K2 and of "any remaining handle reports closed"); K5 task handles: the task body runs under the handle cell, so unsubscribe()/is_closed() cannot overtake a running body (same rule as C19.H3); K6 a part leaves a MultiSubscription only through unsubscribe() (or when it is an empty slot / already closed): no other method takes, pops, removes or clears live parts, otherwise is_closed() turns true and unsubscribe() returns while that part still runs; K8 is_closed() of every Subscription impl is a pure read (shared guards only, no effect); K7 every task an operator schedules is registered with the subscription it handed back (same rule as C02.U1), otherwise is_closed() is true while the task is still to run; K3 the cells whose emptiness means "closed" are never '
+               'composite unsubscribes the late addition instead of dropping it; K4 unsubscribe() empties the closed-means-None slot on every path (precondition of K2 and of "any remaining handle reports closed"); K5 task handles: the task body runs under the handle cell, so unsubscribe()/is_closed() cannot overtake a running body (same rule as C19.H3); K6 a part leaves a MultiSubscription only through unsubscribe() (or when it is an empty slot / already closed): no other method takes, pops, removes or clears live parts, otherwise is_closed() turns true and unsubscribe() returns while that part still runs; K9 a task handle reports closed only once its value was produced / the produced subscription is closed (same rule as C19.H5); K8 is_closed() of every Subscription impl is a pure read (shared guards only, no effect); K7 every task an operator schedules is registered with the subscription it handed back (same rule as C02.U1), otherwise is_closed() is true while the task is still to run; K3 the cells whose emptiness means "closed" are never '
                're-filled after construction and keep_running is only ever cleared (no resurrection: true never reverts to false). '
                'Decides the per-type protocol; does not decide history-level monotonicity of MultiSubscription::is_closed across appends.')
 ASSUMPTIONS = ['a subscription type outside the crate (user-defined) follows the same contract']
@@ -40,7 +40,7 @@ CONTROLS_OK = ['K1|<verif_controls::GoodPair<A, B> as Subscription>::is_closed',
 
 
 def check(cx):
-    return k1(cx) + k2(cx) + k3(cx) + k4(cx) + k5(cx) + k6(cx) + k7(cx) + k8(cx)
+    return k1(cx) + k2(cx) + k3(cx) + k4(cx) + k5(cx) + k6(cx) + k7(cx) + k8(cx) + k9(cx)
 
 
 def _parts(g, names):
@@ -399,3 +399,12 @@ def k8(cx):
     if len(out) < 15:
         out.append(Finding(ID, 'K8', 'floor', False, 'only %d is_closed() implementations found' % len(out)))
     return out
+
+
+def k9(cx):
+    """a task handle answers closed only when its task can no longer act (same rule as C19.H5): a subscription task that is still
+    queued or waiting for its timer has produced no value yet and is not closed"""
+    if cx.control:
+        return []
+    from . import c19
+    return [Finding(ID, 'K9', f.key, f.ok, f.msg, f.loc, f.witness) for f in c19.h5(cx)]
